@@ -82,6 +82,21 @@ CLAIMS['C11'] = dict(
          'within the time budget (reported as not discharged).',
     technique=TECH_B + ' (real-arithmetic mode)', design='3 (C11)')
 
+CLAIMS['C14'] = dict(
+    text='Exact-arithmetic obligations over fully symbolic small tables (K=3 quick / 4 thorough knots, any prime index): XsCalculator is non-negative, reproduces '
+         'the table at its knots, stays between neighbouring knot values of the interpolated quantity and extrapolates as documented; RangeCalculator is positive, '
+         'monotone, bracketed and reproduces knots; InverseRange(Range(E)) = E. exp/log enter as uninterpreted strictly monotone inverse pair (lemma schemas).',
+    note='Algebraic (real-mode) claim; IEEE accuracy outside (bit-precise grid index: C18.7, defect F1 fixed there). Mean energy loss, MSC path conversion, '
+         'EnergyLoss/GenericCalculator not yet covered.',
+    technique=TECH_B + ' (real-arithmetic mode with instantiated exp/log lemma schemas)', design='3 (C14)')
+CLAIMS['C15'] = dict(
+    text='Support, index validity and draw count for every value of the underlying uniforms (stub engine returning any canonical value): uniform, Bernoulli, '
+         'selector, exponential, reciprocal, inverse-square, radial, isotropic, uniform-box. UniformRealDistribution also bit-precise: open known finding F3 '
+         '(returns b when the draw is within 2^-53 of 1).',
+    note='The statistical half (empirical distribution vs density) is not a solver question and is outside; normal/gamma/Poisson/TsaiUrban/fluctuation samplers '
+         'and rejection loops not covered; u=0 corner of log excluded.',
+    technique=TECH_B + ' (real-arithmetic mode; IEEE mode for UniformRealDistribution)', design='3 (C15)')
+
 NOT_APPLICABLE = {
     'C07': 'quantifies over interleavings of host threads driving whole Steppers over shared_ptr/std::vector/OpenMP state: no installed engine '
            'models concurrent libstdc++ (CBMC C++ front end cannot parse it; own IR executors are single-threaded). See DESIGN.md C07.',
